@@ -1287,6 +1287,7 @@ def run(tier):
         wprog = ir.Program(None, cfg)
         c14.leak_rules(wprog, rep, only_files=list(UNITS))
         c14.destroy_then_fail_rule(wprog, rep, only_files=["events/events_network.c"])     # a refused registration has not disturbed an accepted one
+        c14.realloc_idiom_rule(wprog, rep, ("events/events_network.c",))
         c14.reported_rule(wprog, rep, only_files=list(UNITS))
     n = len(configs)
     rep.require_min("LIN", 10 * n)
